@@ -98,6 +98,8 @@ int rset_find(struct rset *rs, char *s, int n, int *grps, int flg)
 		regex_flg |= REG_NOTBOL;
 	if (flg & RE_NOTEOL)
 		regex_flg |= REG_NOTEOL;
+	if (flg & RE_PREV)
+		regex_flg |= REG_PREV;
 	subs = malloc(rs->grpcnt * sizeof(subs[0]));
 	found = !regexec(&rs->regex, s, rs->grpcnt, subs, regex_flg);
 	for (i = 0; found && i < rs->n; i++)
